@@ -143,6 +143,8 @@ def run(ctx) -> None:
   ctx.rule('R4', 'NumpyEncoder and numpy_hook agree on tag keys', 1)
   ctx.rule('R5', 'no in-place mutation of an object that (shallowly) aliases a constructor-derived field: '
            'load()/re-initialisation must start from the same template every time', 1)
+  ctx.rule('R6', 'state serialised as JSON keeps the order of data-keyed mappings (no sort_keys where the loader iterates)', 4)
+  ctx.rule('R7', "NumpyEncoder encodes the array itself ('value' is a shape-level method chain on the array, no filtering/merging)", 1)
   pf = ctx.index.need_class('vizier._src.service.policy_factory.DefaultPolicyFactory')
   call = pf.methods['__call__']
   designers = r3_wiring(ctx, pf, call)
@@ -160,6 +162,8 @@ def run(ctx) -> None:
   r2_eagle_json(ctx)
   r3_policy(ctx)
   r4_numpy_json(ctx)
+  r6_json_order(ctx)
+  r7_lossless_encoder(ctx)
 
 
 # ----------------------------------------------------------------------- R1
@@ -548,6 +552,99 @@ def r3_policy(ctx) -> None:
 
 
 # ----------------------------------------------------------------------- R4
+_LOSSLESS_ARRAY_METHODS = {'tolist', 'ravel', 'flatten', 'reshape', 'copy', 'item'}
+_LOSSY_CALLS = {'where', 'nan_to_num', 'clip', 'round', 'around', 'rint', 'astype', 'floor', 'ceil', 'trunc',
+                'minimum', 'maximum', 'isfinite', 'isnan', 'isinf', 'masked_invalid', 'fix'}
+
+
+def _value_defs(fn: ast.AST, e: ast.AST, depth: int = 0) -> List[ast.AST]:
+  """All expressions a (possibly re-assigned) local may hold at its use: every assignment in the function."""
+  if isinstance(e, ast.Name) and depth < 4:
+    defs = [n.value for n in ast.walk(fn) if isinstance(n, ast.Assign)
+            and any(isinstance(t, ast.Name) and t.id == e.id for t in n.targets)]
+    if defs:
+      out = []
+      for d in defs:
+        out.extend(_value_defs(fn, d, depth + 1))
+      return out
+  return [e]
+
+
+def r7_lossless_encoder(ctx) -> None:
+  """NumpyEncoder's 'value' entry is the array itself (lossless chain on `o`), never a filtered/merged copy."""
+  mod = ctx.index.need_module('vizier.utils.json_utils')
+  enc = mod.classes.get('NumpyEncoder')
+  if enc is None or 'default' not in enc.methods:
+    raise AnalysisError('json_utils.NumpyEncoder.default not found')
+  fn = enc.methods['default'].node
+  param = enc.methods['default'].params[-1]
+  vals = []
+  for d in ast.walk(fn):
+    if isinstance(d, ast.Dict):
+      for k, v in zip(d.keys, d.values):
+        if isinstance(k, ast.Constant) and k.value == 'value':
+          vals.append(v)
+  if not vals:
+    raise AnalysisError("NumpyEncoder.default: dict entry 'value' not found")
+  for v in vals:
+    for e in _value_defs(fn, v):
+      lossy = sorted({(dotted(c.func) or '').rsplit('.', 1)[-1] for c in ast.walk(e) if isinstance(c, ast.Call)}
+                     & _LOSSY_CALLS)
+      consts = [c for c in ast.walk(e) if isinstance(c, ast.Constant) and (c.value is None or isinstance(c.value, (int, float, str)))
+                and not isinstance(c.value, bool)]
+      # lossless: a method chain rooted at the parameter using only shape-level methods
+      x = e
+      chain_ok = True
+      while isinstance(x, ast.Call) and isinstance(x.func, ast.Attribute):
+        if x.func.attr not in _LOSSLESS_ARRAY_METHODS:
+          chain_ok = False
+        x = x.func.value
+      rooted = isinstance(x, ast.Name) and x.id == param
+      if lossy or (not (chain_ok and rooted) and consts):
+        ctx.bad('R7', "NumpyEncoder 'value' entry", e,
+                f"the encoded array is not the array itself: `{unparse(e, 90)}` passes it through {lossy or 'a merge with constants'}; "
+                'entries that are filtered or replaced on the way out (e.g. +-inf -> null -> NaN) come back different, so a '
+                'restored population differs from the live one', construct=f"lossy:{','.join(lossy) or 'const'}", func=enc.qualname)
+      elif chain_ok and rooted:
+        ctx.ok('R7', "NumpyEncoder 'value' entry", e, f'`{unparse(e, 60)}`: shape-level methods on the array only')
+      else:
+        raise AnalysisError(f"NumpyEncoder 'value' expression `{unparse(e, 80)}` is outside the lossless/lossy tables")
+
+
+_JSON_STATE_MODULES = [
+    'vizier._src.algorithms.designers.eagle_strategy.serialization',
+    'vizier._src.algorithms.evolution.numpy_populations',
+    'vizier._src.algorithms.designers.cmaes',
+    'vizier._src.algorithms.policies.trial_caches',
+]
+
+
+def r6_json_order(ctx) -> None:
+  """A module that restores state by iterating a loaded JSON mapping must not dump with sort_keys."""
+  n = 0
+  for q in _JSON_STATE_MODULES:
+    mi = ctx.index.need_module(q)
+    tree = mi.tree
+    dumps = [c for c in ast.walk(tree) if isinstance(c, ast.Call) and (dotted(c.func) or '').endswith('json.dumps')]
+    iterates = []
+    for x in ast.walk(tree):
+      it = None
+      if isinstance(x, (ast.For, ast.comprehension)):
+        it = x.iter
+      if it is not None and isinstance(it, ast.Call) and isinstance(it.func, ast.Attribute) and it.func.attr in ('items', 'keys', 'values'):
+        iterates.append(it)
+    for c in dumps:
+      n += 1
+      sk = [k for k in c.keywords if k.arg == 'sort_keys' and not (isinstance(k.value, ast.Constant) and not k.value.value)]
+      ctx.check(not (sk and iterates), 'R6', f'{q.rsplit(".", 1)[-1]}: json.dumps keeps mapping order', c,
+                'no sort_keys (or the loader never iterates a loaded mapping)',
+                f'json.dumps(..., sort_keys=...) while the loader iterates a restored mapping ({unparse(iterates[0], 60) if iterates else ""}): '
+                'JSON object keys are strings, so integer ids are re-ordered lexicographically ("10" < "2") and the restored '
+                'container iterates in a different order than the live one', construct='sort_keys', func=q)
+  if n == 0:
+    raise AnalysisError('R6: no json.dumps call found in the state-serialisation modules')
+
+
 def r4_numpy_json(ctx) -> None:
   mod = ctx.index.need_module('vizier.utils.json_utils')
   enc = mod.classes.get('NumpyEncoder')
@@ -591,5 +688,13 @@ VARIANTS = [
             '      self._utils.rng = self._rng\n', '', rule='R1'),
     Variant('eagle-encoder-drops-key', 'vizier/_src/algorithms/designers/eagle_strategy/serialization.py',
             "          '_max_fly_id': o._max_fly_id,  # pylint: disable=protected-access\n", '', rule='R2'),
+    Variant('numpy-encoder-nan-to-num', 'vizier/utils/json_utils.py', "'value': o.tolist(),", "'value': np.nan_to_num(o).tolist(),", rule='R7'),
+    Variant('population-sort-keys', 'vizier/_src/algorithms/designers/eagle_strategy/serialization.py',
+            'return json.dumps(firefly_pool, cls=PartialFireflyPoolEncoder)',
+            'return json.dumps(firefly_pool, cls=PartialFireflyPoolEncoder, sort_keys=True)', rule='R6'),
+    Variant('benign-encoder-ravel', 'vizier/utils/json_utils.py', "'value': o.tolist(),", "'value': o.ravel().tolist(),", expect='silent'),
+    Variant('benign-sort-keys-false', 'vizier/_src/algorithms/designers/eagle_strategy/serialization.py',
+            'return json.dumps(firefly_pool, cls=PartialFireflyPoolEncoder)',
+            'return json.dumps(firefly_pool, cls=PartialFireflyPoolEncoder, sort_keys=False)', expect='silent'),
     Variant('benign-rename-local', 'vizier/_src/algorithms/designers/grid.py', 'parameter_dicts', 'pdicts', expect='silent', count=4),
 ]
